@@ -112,7 +112,7 @@ pub fn outcome_hash(log: &[Entry]) -> u64 {
 }
 
 pub fn fmt_entry(e: &Entry) -> String {
-    format!("[s{} t{}] {:?}", e.step, e.time, e.ev)
+    format!("[s{} t{} k{}] {:?}", e.step, e.time, if e.task == u32::MAX { -1 } else { e.task as i64 }, e.ev)
 }
 
 // ---------------------------------------------------------------- worker
